@@ -471,15 +471,18 @@ def dispatch(ctx, impls, case, tags=()):
         ctx.notes.append("implementation %s unavailable, case skipped" % case["impl"])
         return None
     lvl = case["level"]
-    if lvl == "kernel":
-        return check_kernel(ctx, impls, case, tags)
-    if lvl == "table":
-        return check_table(ctx, impls, case, tags)
-    if lvl == "axisfree":
-        return check_axisfree(ctx, impls, case, tags)
-    if lvl == "cli":
-        return check_cli(ctx, impls, case, tags)
-    raise ValueError(lvl)
+    fn = {"kernel": check_kernel, "table": check_table, "axisfree": check_axisfree, "cli": check_cli}[lvl]
+    try:
+        return fn(ctx, impls, case, tags)
+    except RuntimeError:
+        raise  # driver trouble is infrastructure, not an observation
+    except Exception as e:
+        # the real code raised outside the places where an exception is an expected observation (e.g. while the
+        # prior history — itself a transform — was applied): the property promises a result for every table
+        ctx.case(case, nontrivial=True)
+        ctx.fail(case, "raised:" + core.err_name(e), tuple(tags) + (lvl, "impl=" + case["impl"]),
+                 detail={"exc": repr(e)})
+        return None
 
 
 def load_impls(ctx):
@@ -520,10 +523,10 @@ def run(ctx):
         for fn in ELEMENTWISE + VECTORWISE + KERNEL_ONLY:
             for zeros in (False, True):
                 for sort in (False, True):
-                    check_kernel(ctx, impls, gen_kernel_case(rng, impl, fn, zeros, sort), ("systematic",))
+                    dispatch(ctx, impls, gen_kernel_case(rng, impl, fn, zeros, sort), ("systematic",))
     for _ in range(n_kernel):
         for impl in names:
-            check_kernel(ctx, impls, gen_kernel_case(rng, impl))
+            dispatch(ctx, impls, gen_kernel_case(rng, impl))
     # systematic table sweep: every route x axis x op on one asymmetric table per implementation
     for impl in names:
         for route in core.ROUTES + ["dense+csc-transform", "csr_unsorted+csc-filter", "coo+csr-transform"]:
@@ -533,7 +536,7 @@ def run(ctx):
                 ops = [("norm", {}), ("pa", {})] + [("rankdata", {"method": m}) for m in RANK_METHODS] + \
                       [("transform", {"fn": f}) for f in (ELEMENTWISE[0], ELEMENTWISE[6], ELEMENTWISE[7]) + tuple(VECTORWISE)]
                 for op, kw in ops:
-                    check_table(ctx, impls, dict({"level": "table", "impl": impl, "op": op, "spec": spec,
+                    dispatch(ctx, impls, dict({"level": "table", "impl": impl, "op": op, "spec": spec,
                                                   "route": route, "hist": hist or None, "axis": axis,
                                                   "inplace": rng.choice([True, False])}, **kw), ("systematic",))
     for _ in range(n_table):
@@ -541,12 +544,12 @@ def run(ctx):
         if not quick and rng.random() < 0.2:
             case["spec"] = gen_table_spec(rng, nonneg=(case["op"] == "norm"), big=True)
         for impl in names:
-            check_table(ctx, impls, dict(case, impl=impl))
+            dispatch(ctx, impls, dict(case, impl=impl))
     for _ in range(n_axis):
         case = {"level": "axisfree", "spec": gen_table_spec(rng), "route": rng.choice(core.ROUTES),
                 "hist": rng.choice(HISTS), "fn": rng.choice(ELEMENTWISE + [{"name": "pa"}])}
         for impl in names:
-            check_axisfree(ctx, impls, dict(case, impl=impl))
+            dispatch(ctx, impls, dict(case, impl=impl))
     for k in range(n_cli):
         case = {"level": "cli", "op": rng.choice(["norm", "pa"]), "spec": gen_table_spec(rng, nonneg=True),
                 "route": rng.choice(core.ROUTES), "axis": rng.choice(["sample", "observation"]),
@@ -554,7 +557,7 @@ def run(ctx):
         if not case["spec"]["obs"] or not case["spec"]["samp"]:
             continue
         for impl in names:
-            check_cli(ctx, impls, dict(case, impl=impl))
+            dispatch(ctx, impls, dict(case, impl=impl))
     shutil.rmtree(TMP, ignore_errors=True)
 
 
